@@ -526,10 +526,57 @@ def unusual_operation_shapes(ctx):
                         break
 
 
+def collected_classes(ctx):
+    """A long-lived recorder in a process that creates operation classes on the fly and drops them again (plugins, tenants): a class
+    without recording parameters gets the default policy whatever classes existed - and were configured - before it."""
+    import gc
+    from playback.tape_recorder import TapeRecorder, RecordingParameters
+    with open_box('memory') as box:
+        spy = SpyCassette(box.cassette)
+        rec = TapeRecorder(spy)
+        rec.enable_recording()
+
+        def make(name, params):
+            ns = {'execute': rec.operation()(lambda self: self.read()), 'read': rec.intercept_input('gc.read')(lambda self: 1)}
+            cls = type(name, (object,), ns)
+            if params is not None:
+                rec.recording_params(RecordingParameters(**params))(cls)
+            return cls
+
+        def decision(cls):
+            n0 = len(spy.log)
+            cls().execute()
+            ev = [e[0] for e in spy.log[n0:] if e[0] in ('create', 'save', 'abort')]
+            return 'none' if not ev else ('save' if ev == ['create', 'save'] else ('abort' if ev == ['create', 'abort'] else 'other'))
+        for rnd in range(ctx.budget(40, 400)):
+            params = [dict(skipped=True), dict(sampling_rate=0.0), dict(sampling_rate=0.0, ignore_enforced_sampling=True)][rnd % 3]
+            plugin = make('Plugin%d' % rnd, params)
+            got = decision(plugin)
+            exp = 'none' if params.get('skipped') else 'abort'
+            ctx.case(('collected', rnd, 'configured'))
+            ctx.count('collected_class_decisions')
+            if got != exp:
+                ctx.violation('configured on-the-fly class decided %r, its policy says %r' % (got, exp), {'round': rnd})
+                return
+            del plugin
+            gc.collect()
+            fresh_cls = make('Fresh%d' % rnd, None)
+            got = decision(fresh_cls)
+            ctx.case(('collected', rnd, 'fresh'))
+            ctx.count('collected_class_decisions')
+            if got != 'save':
+                ctx.violation('a class without recording parameters, created after a configured class was dropped and collected, decided %r instead of the '
+                              'default (keep)' % got, {'round': rnd})
+                return
+            del fresh_cls
+            gc.collect()
+
+
 def run(ctx):
     from playback.tape_recorder import TapeRecorder
     if ctx.shard == 0:
         unusual_operation_shapes(ctx)
+        collected_classes(ctx)
         blackbox_histories(ctx)          # needs no access to internals: runs before the parts that install a draw-logging RNG
         s3_lookups_between_saves(ctx)
     env.anchor(TapeRecorder, '_should_sample_active_recording')
